@@ -203,6 +203,12 @@ def make_case(rng, ctx, idx, want, opts=None):
     s = list(audio_defs())
     s.append("init " + hx(json.dumps(cfg)))
     s += gl
+    # about one case in seven runs on synthetic acoustics: the scorer's output is replaced by a seeded function of
+    # (frame, senone) - dense random costs, all-equal costs (ties everywhere), or a few cheap senones among dear ones
+    synth = None
+    if rng.random() < 0.15 and not opts.get("no_synth"):
+        synth = rng.choice(["hash", "hash", "sparse", "flat"])
+        s.append("senmode %s %d %d" % (synth, rng.randrange(1, 10 ** 6), rng.choice([40, 300, 1500, 6000])))
     s.append("start")
     pieces = chunking(rng, aud, mode)
     np_ = 0
@@ -229,7 +235,7 @@ def make_case(rng, ctx, idx, want, opts=None):
         for lvl in (0, 1, 2):
             s.append("json fin %d %d" % (rng.choice([0, 1500, 1234567]), lvl))
     s.append("free")
-    eid = "%s-%s-%s-%s#%d" % (gkind, aud, beam, mode, idx)
+    eid = "%s-%s-%s-%s%s#%d" % (gkind, aud, beam, mode, ("-" + synth) if synth else "", idx)
     return eid, s
 
 
